@@ -295,6 +295,7 @@ func genModuleSet(r *prng.R, o genModOpts) *ModSet {
 		ms.Tree.Files["pkg/notiz.txt"] = []byte("kein ddp\n")
 		ms.Tree.Dirs = append(ms.Tree.Dirs, "pkg/ordner.ddp")
 		kinds["dir_noise"] = true
+		ms.Tree.Prune()
 	}
 	for k := range kinds {
 		ms.Kinds = append(ms.Kinds, k)
